@@ -42,9 +42,62 @@ def has_f18(p):
     return any(has_f18(q) for q in p.get('ps', []))
 
 
+def sized_not_indexable(rep):
+    """the stages that offer a length without integer indexing and are outside the pipeline family of the model (per-epoch
+    reshuffles, local shuffles with a buffer) and what is stacked on them: `len(ds)`, when offered, is the number of examples
+    every iteration yields (Lean: RefWF.len is stated for any dataset that offers a length)"""
+    import random
+    import warnings
+    import numpy as np
+    import lazy_dataset
+    from canon import outcome
+    rng = random.Random(rep.seed * 7919 + 2)
+    cases = 0
+    fail = None
+    with warnings.catch_warnings():
+        warnings.simplefilter('ignore')
+        for n in range(0, 8 if rep.tier == 'quick' else 14):
+            for b in (None, 1, 2, 3, 4, 100):
+                for keyed in (False, True):
+                    src = {f'k{i}': 10 * i for i in range(n)} if keyed else [10 * i for i in range(n)]
+                    for top in ('plain', 'map', 'batch2', 'batch3_drop', 'prefetch', 'items', 'filter_len'):
+                        if top == 'items' and not keyed:
+                            continue
+
+                        def mk():
+                            ds = lazy_dataset.new(src)
+                            if rng.random() < 0.3:
+                                ds = ds[::-1]
+                            seed = rng.randrange(1 << 30)
+                            ds = ds.shuffle(True, rng=np.random.RandomState(seed)) if b is None else \
+                                ds.shuffle(True, rng=np.random.RandomState(seed), buffer_size=b)
+                            return {'plain': lambda d: d, 'map': lambda d: d.map(lambda x: x + 1), 'batch2': lambda d: d.batch(2),
+                                    'batch3_drop': lambda d: d.batch(3, drop_last=True), 'prefetch': lambda d: d.prefetch(1, 2),
+                                    'items': lambda d: d.items(), 'filter_len': lambda d: d.map(lambda x: x).map(lambda x: x)}[top](ds)
+                        ds = mk()
+                        ln = outcome(lambda: len(ds))
+                        cases += 1
+                        if 'ok' not in ln:
+                            continue
+                        for epoch in range(2):
+                            got = outcome(lambda: list(ds), lambda x: x)
+                            if ('ok' not in got or len(got['ok']) != ln['ok']) and fail is None:
+                                fail = {'n': n, 'keyed': keyed, 'buffer_size': b, 'stacked': top, 'len': ln['ok'], 'epoch': epoch,
+                                        'iteration': got}
+    if fail:
+        rep.violation({'property': 'C02', 'kind': 'oracle-failure', 'clause': 'len_eq_count_sized_not_indexable', 'detail': fail})
+    rep.coverage['sized_not_indexable_cases'] = cases
+    return rep
+
+
 def run(rep):
-    return piperun.run(P(), rep)
+    rep = piperun.run(P(), rep)
+    return sized_not_indexable(rep)
 
 
 def replay(j):
+    if j.get('clause') == 'len_eq_count_sized_not_indexable':
+        import json
+        print(json.dumps(j, indent=1)[:3000])
+        return 1
     return piperun.replay(P(), j)
